@@ -86,3 +86,32 @@ def _v11(repo, mod):
     fn = repo.func(MA, "RunningTask._adjust_search_time_after_crash")
     s = find_stmt(fn, lambda s: isinstance(s, ast.Assign) and norm(s.targets[0]) == "remaining_time")
     return replace_node(mod, s, "spent = elapsed_time\n            remaining_time = max(current_search_time - spent, 0.0)")
+
+
+@variant("C33", "blocking-recv-without-liveness", MA, "C33.liveness", "recv() waits for EOF only (the repaired defect)")
+def _v30(repo, mod):
+    fn = repo.func(MA, "RunningTask.get_result")
+    lp = find_stmt(fn, lambda s: isinstance(s, ast.While))
+    return delete_stmt(mod, lp)
+
+
+@variant("C33", "wait-loop-ignores-dead-worker", MA, "C33.liveness", "the poll loop never looks at the worker process")
+def _v31(repo, mod):
+    fn = repo.func(MA, "RunningTask.get_result")
+    lp = find_stmt(fn, lambda s: isinstance(s, ast.While))
+    return replace_node(mod, lp.body[0], "pass")
+
+
+@variant("C33", "wait-loop-ends-while-worker-alive", MA, "C33.liveness", "the liveness test is inverted: a living worker counts as dead, a dead one is waited for")
+def _v32(repo, mod):
+    fn = repo.func(MA, "RunningTask.get_result")
+    lp = find_stmt(fn, lambda s: isinstance(s, ast.While))
+    c = find_node(lp, lambda n: isinstance(n, ast.UnaryOp) and isinstance(n.op, ast.Not) and "is_alive" in norm(n))
+    return replace_node(mod, c, "self._worker_process.is_alive()")
+
+
+@variant("C33", "twin-wait-with-other-timeout", MA, None, "another poll interval and a local for the process stay silent")
+def _v33(repo, mod):
+    fn = repo.func(MA, "RunningTask.get_result")
+    lp = find_stmt(fn, lambda s: isinstance(s, ast.While))
+    return replace_node(mod, lp.test.operand.args[0], "0.25")
